@@ -53,7 +53,7 @@ func (tr *FnTr) call(x *ssa.Call) {
 			}
 			res = tr.staticCall(x, f.Fn.(*ssa.Function), cc, free)
 		default:
-			res = tr.abstractCall(x, cc, "dynamic call")
+			res = tr.dynamicCall(x, cc)
 		}
 	}
 	if res.T == nil {
@@ -61,6 +61,26 @@ func (tr *FnTr) call(x *ssa.Call) {
 	}
 	res.T = x.Type()
 	tr.env[x] = res
+}
+
+// dynamicCall: a call through a package-level func variable may have an (assumed)
+// contract keyed by the variable's name; anything else is abstracted.
+func (tr *FnTr) dynamicCall(x *ssa.Call, cc *ssa.CallCommon) Val {
+	if ld, ok := cc.Value.(*ssa.UnOp); ok && ld.Op == token.MUL {
+		if g, ok := ld.X.(*ssa.Global); ok && g.Pkg != nil {
+			name := g.Pkg.Pkg.Path() + "." + g.Name()
+			if ct := tr.eng.contractFor(name); ct != nil {
+				sig := cc.Value.Type().Underlying().(*types.Signature)
+				ci := &calleeInfo{name: g.Name(), sig: sig, allocs: true}
+				for i := 0; i < sig.Params().Len(); i++ {
+					ci.params = append(ci.params, sig.Params().At(i).Name())
+				}
+				tr.vc.Assumed = appendUniq(tr.vc.Assumed, "assumed contract of func variable: "+name)
+				return tr.contractCallInfo(x, ci, ct, tr.args(cc))
+			}
+		}
+	}
+	return tr.abstractCall(x, cc, "dynamic call")
 }
 
 func (tr *FnTr) args(cc *ssa.CallCommon) []Val {
@@ -173,10 +193,30 @@ func flattenResults(rs []Val, T types.Type) Val {
 
 // ---------- contracted calls ----------
 
+type calleeInfo struct {
+	name   string
+	sig    *types.Signature
+	params []string
+	allocs bool
+}
+
+func infoOf(e *Eng, f *ssa.Function) *calleeInfo {
+	ci := &calleeInfo{name: f.Name(), sig: f.Signature}
+	for _, p := range f.Params {
+		ci.params = append(ci.params, p.Name())
+	}
+	_, ci.allocs = e.funcEffects(f)
+	return ci
+}
+
 func (tr *FnTr) contractCall(x ssa.Value, f *ssa.Function, ct *FuncContract, args []Val) Val {
+	return tr.contractCallInfo(x, infoOf(tr.eng, f), ct, args)
+}
+
+func (tr *FnTr) contractCallInfo(x ssa.Value, f *calleeInfo, ct *FuncContract, args []Val) Val {
 	name := ct.Name
 	pre := tr.st
-	ctx := tr.calleeCtx(f, args, nil, pre, pre)
+	ctx := tr.calleeCtxInfo(f, args, nil, pre, pre)
 	for i, c := range ct.Requires {
 		if tr.top.refute {
 			break
@@ -194,7 +234,7 @@ func (tr *FnTr) contractCall(x ssa.Value, f *ssa.Function, ct *FuncContract, arg
 	}
 	// post-state
 	post := State{Reach: tr.st.Reach, Mem: pre.Mem, Alloc: pre.Alloc}
-	_, allocs := tr.eng.funcEffects(f)
+	allocs := f.allocs
 	if !ct.Pure {
 		var frame []cellRange
 		for _, m := range ct.Modifies {
@@ -207,12 +247,12 @@ func (tr *FnTr) contractCall(x ssa.Value, f *ssa.Function, ct *FuncContract, arg
 			tr.vc.Oblige(tr.prefix+"frame.store", "", Implies(tr.st.Reach, tFalse), tr.pos(tr.curInstr.Pos()))
 		}
 		if tr.top.refute {
-			post.Mem = tr.havocAllMem(pre.Mem, "call_"+f.Name())
+			post.Mem = tr.havocAllMem(pre.Mem, "call_"+f.name)
 			post.Alloc = tr.vc.Fresh("alloc_call", SInt)
 			tr.vc.Assume(Le(pre.Alloc, post.Alloc))
 		} else if !ct.HasModifies {
 			// no frame declared: conservatively havoc everything reachable
-			post.Mem = tr.havocAllMem(pre.Mem, "call_"+f.Name())
+			post.Mem = tr.havocAllMem(pre.Mem, "call_"+f.name)
 			post.Alloc = tr.vc.Fresh("alloc_call", SInt)
 			tr.vc.Assume(Le(pre.Alloc, post.Alloc))
 			tr.note("call to " + name + " without modifies clause: memory havocked")
@@ -221,20 +261,21 @@ func (tr *FnTr) contractCall(x ssa.Value, f *ssa.Function, ct *FuncContract, arg
 				post.Alloc = tr.vc.Fresh("alloc_call", SInt)
 				tr.vc.Assume(Le(pre.Alloc, post.Alloc))
 			}
-			post.Mem = tr.havocMem(pre.Mem, pre.Alloc, frame, allocs, "call_"+f.Name())
+			post.Mem = tr.havocMem(pre.Mem, pre.Alloc, frame, allocs, "call_"+f.name)
 		}
 	}
 	// results
 	var res Val
 	var results []Val
-	sig := f.Signature
+	sig := f.sig
 	for i := 0; i < sig.Results().Len(); i++ {
-		r := tr.freshVal(fmt.Sprintf("%s_r%d", f.Name(), i), sig.Results().At(i).Type(), post.Alloc)
+		r := tr.freshVal(fmt.Sprintf("%s_r%d", f.name, i), sig.Results().At(i).Type(), post.Alloc)
 		results = append(results, r)
 		res.L = append(res.L, r.L...)
 	}
 	tr.st = post
-	pctx := tr.calleeCtx(f, args, results, post, pre)
+	pctx := tr.calleeCtxInfo(f, args, results, post, pre)
+	pctx.guard = post.Reach
 	for _, c := range ct.Ensures {
 		tr.vc.Assume(Implies(post.Reach, pctx.fact(c.E)))
 	}
